@@ -17,8 +17,8 @@
    greedy run may commit to the longest run: giving characters back can never make ')' match.
    ASCII input: \d = [0-9], \w = [A-Za-z0-9_], \s = str.isspace on code points < 128 (Base.Str.is_ws).
 
-   The model describes the tree AFTER the repairs of D25 (delete effects collected by their atom) and D71 (what the
-   effects of an action read is collected and compared).  Quirks kept as they are in the code:
+   The model describes the tree after the repairs of D25 (110baee: delete effects collected by their atom), D71 (0d0fabb:
+   what the effects of an action read is collected and compared) and D64 (ab9b074: apply_actions drops nop entries first).  Quirks kept as they are in the code:
    * texts of atoms / functions ("(p a b)", "(f a)") are modelled as (name, arguments): the rendering is injective on
      token names, which hold no blank and no parenthesis;
    * iterating a GroundedPrecondition yields (operator, operand) TUPLES, so neither isinstance test of
@@ -356,19 +356,18 @@ Section Converter.
       do b <- is_applicable dom eps None ga cur;
       if negb b then Ok false else validate_insertion ja ga.
 
-  (* common.apply_actions (allow_inapplicable_actions = False) *)
+  (* common.apply_actions (allow_inapplicable_actions = False, no object table): the nop entries are dropped first
+     (after the repair of D64), a single remaining action is applied by Operator.apply itself *)
   Definition apply_actions (cur : state) (ms : list call) : result state :=
-    match ms with
+    match members ms with
     | [c] => do ga <- mk_op c; apply_op dom eps ga None false false (group_ids ga) [] cur
-    | _ =>
+    | ex =>
         foldM (fun acc c =>
-                 if is_nop c then Ok acc
-                 else
-                   do ga <- mk_op c;
-                   do b <- is_applicable dom eps None ga cur;
-                   if b then apply_op dom eps ga None true false (group_ids ga) [] acc
-                   else Err EValue)
-              ms cur
+                 do ga <- mk_op c;
+                 do b <- is_applicable dom eps None ga cur;
+                 if b then apply_op dom eps ga None true false (group_ids ga) [] acc
+                 else Err EValue)
+              ex cur
     end.
 
   Definition convert_actions (init : state) (plan : list pcall) : result (list joint) :=
